@@ -256,7 +256,7 @@ def judge(chk, runs, tag, batch=150000, parallel=1):
     def one(part):
         path, lines, where = part
         res = core.run_tlc("RingTrace.tla", "RingTrace.cfg", workers=1, env={"TRACE": path}, timeout=3000,
-                           xmx="6g", xss="512m")
+                           xmx="6g", xss="512m", metadir=os.path.join(core.WORK, "tlc-meta", "c17-%d-%s" % (os.getpid(), os.path.basename(path))))
         core.tlc_must_pass(res, "RingTrace " + tag)
         j = res.printed("RINGJUDGE")
         bl = res.printed("RINGBAD")
